@@ -197,6 +197,14 @@ pub fn gen_adversarial(r: &mut Rng, layout: &str) -> Value {
             let kt = if r.chance(1, 4) { CT::I32 } else { CT::I64 };
             let mut t = Tbl::new("t", vec![("a".into(), kt), ("b".into(), kt), ("v".into(), CT::I64)], ints(&rows));
             pq_opts(r, &mut t, layout, &mut tags);
+            // GroupKeyReduction may take `b` (or `a`) for a unique key (finding C03-F1): the neutralised tables make `b` unique inside its range
+            if stream == "packgroup" && !nullable {
+                if let Some(u) = uniquify(&b) {
+                    let mut t2 = t.clone();
+                    t2.rows = ints(&(0..n).map(|i| vec![a[i], u[i], 1 << (i % 20)]).collect::<Vec<_>>());
+                    neutral_tables = Some(vec![t2]);
+                }
+            }
             tables.push(t);
             if stream == "packgroup_shadow" {
                 let off = *r.pick(&[1i64, 3, 8, 64, 1000]);
